@@ -418,7 +418,30 @@ pub fn a4_std_models(c: &StrCase) -> Outcome {
             pos += n + sep.len();
         }
     }
-    // --- str::split over a concatenation  (u11: axiom split_concat, used by the C09 theorem): for every cut of s into a ++ b,
+    // --- str::split(&str) against the scan model of u11 (split_scan: leftmost non-overlapping occurrences, scanning from the left)
+    fn split_scan(t: &[u8], sep: &[u8]) -> Vec<Vec<u8>> {
+        let (mut out, mut start, mut i) = (vec![], 0usize, 0usize);
+        loop {
+            if i + sep.len() > t.len() {
+                out.push(t[start..].to_vec());
+                return out;
+            }
+            if &t[i..i + sep.len()] == sep {
+                out.push(t[start..i].to_vec());
+                start = i + sep.len();
+                i = start;
+            } else {
+                i += 1;
+            }
+        }
+    }
+    for sep in ["\n", "\r\n"] {
+        let real: Vec<Vec<u8>> = s.split(sep).map(|p| p.as_bytes().to_vec()).collect();
+        if real != split_scan(b, sep.as_bytes()) {
+            return Err(format!("split({:?}) of {:?} = {:?}, the scan model gives {:?}", sep, s, real, split_scan(b, sep.as_bytes())));
+        }
+    }
+    // --- str::split over a concatenation  (u11: lemma split_concat, used by the C09 theorem): for every cut of s into a ++ b,
     //     split(a ++ sep ++ b) == split(a) ++ split(b) for both line endings
     for sep in ["\n", "\r\n"] {
         for k in 0..=s.len() {
